@@ -723,3 +723,110 @@ class GetMultipleNodesAliases:
         S = sym.as_set(r, Id)
         C.check(z3.ForAll([x], S.mem(x) == z3.Exists([i], z3.And(i >= 0, i < n_al, ids_arr(i)[x]))), "get_multiple_nodes_aliases.post.C12.exactly_the_ids_of_all_the_aliases", {"C12", "C18"}, "post")
         return "return"
+
+
+# ---- _get_single_xn_by_alias / config loaders / executor ---------------------------------------------------------------------------------------
+class GetSingleXnByAlias:
+    """BaseDAG._get_single_xn_by_alias: an alias that stands for several nodes is refused (C19: 'an ambiguous alias raises
+    ValueError'), otherwise the one node it stands for"""
+
+    module = "tawazi._dag.dag"
+    qualname = "BaseDAG._get_single_xn_by_alias"
+    loops = {}
+
+    def run(self, f, case):
+        S = SSet.fresh("ids_of_alias", Id)
+        only = C.fresh("the_only_id", Id)
+
+        class _Ids(SList):
+            def __getitem__(self_, i):
+                if i != 0:
+                    raise Unsupported("only the first id is read")
+                C.check(S.c > 0, "_get_single_xn_by_alias.no_internal_error.alias_resolves_to_at_least_one_node", {"C14", "C19"}, "internal")
+                C.assume(S.a[only])
+                return SId(only)
+
+        class _Dag(Sym):
+            exec_nodes = SXnMap(C.fresh("xn_dom", sym.SetSort(Id)), "exec_nodes")
+
+            def alias_to_ids(self_, alias):
+                # contract of alias_to_ids: a non-empty list of distinct node ids of the DAG (or ValueError)
+                C.assume(S.c >= 1, z3.ForAll([x], z3.Implies(S.a[x], self_.exec_nodes.dom[x])))
+                return _Ids(S, S.c)
+
+        try:
+            r = f(_Dag(), "ALIAS")
+        except ValueError:
+            C.check(S.c > 1, "_get_single_xn_by_alias.exceptional.C19.ValueError_only_for_an_alias_that_stands_for_several_nodes", {"C19", "C12"}, "post")
+            return "raises ValueError"
+        C.check(S.c == 1, "_get_single_xn_by_alias.post.C19.an_ambiguous_alias_is_refused", {"C19", "C12"}, "post")
+        C.check(S.a[r._x], "_get_single_xn_by_alias.post.C19.returns_the_node_the_alias_stands_for", {"C19"}, "post")
+        return "return"
+
+
+class ConfigFromFile:
+    """config_from_yaml / config_from_json: exactly config_from_dict(load(file)) (the loaders are trusted)"""
+
+    module = "tawazi._dag.dag"
+    loops = {}
+
+    def __init__(self, kind):
+        self.kind = kind
+        self.qualname = f"BaseDAG.config_from_{kind}"
+
+    def run(self, f, case):
+        log = dict(opened=[], loaded=[], cfg=[])
+
+        class _F:
+            def __enter__(self_):
+                return self_
+
+            def __exit__(self_, *a):
+                return False
+
+        fh = _F()
+
+        def _open(path, *a):
+            log["opened"].append(path)
+            return fh
+
+        class _Loader:
+            @staticmethod
+            def load(f_, **kw):
+                log["loaded"].append((f_, kw))
+                return "THE-CONFIG"
+
+        class _Dag(Sym):
+            def config_from_dict(self_, cfg_):
+                log["cfg"].append(cfg_)
+
+        f.__globals__.update({"open": _open, "yaml": _Loader, "json": _Loader})
+        f(_Dag(), "PATH")
+        ok = log["opened"] == ["PATH"] and len(log["loaded"]) == 1 and log["loaded"][0][0] is fh and log["cfg"] == ["THE-CONFIG"]
+        C.check(z3.BoolVal(ok), f"config_from_{self.kind}.post.C01.exactly_config_from_dict_of_the_loaded_file", {"C01", "C07"}, "post")
+        return "return"
+
+
+class Executor:
+    """DAG.executor / AsyncDAG.executor: the selection arguments reach the DAGExecution unchanged"""
+
+    module = "tawazi._dag.dag"
+    loops = {}
+
+    def __init__(self, flavour):
+        self.flavour = flavour
+        self.qualname = ("DAG" if flavour == "sync" else "AsyncDAG") + ".executor"
+
+    def run(self, f, case):
+        made = []
+
+        def ctor(**kw):
+            made.append(kw)
+            return "EXECUTION"
+
+        f.__globals__.update({"DAGExecution": ctor, "AsyncDAGExecution": ctor})
+        me = _Aliases("self")
+        r = f(me, "T", "X", "R", "D", "IN", "FROM")
+        ok = r == "EXECUTION" and made == [dict(dag=me, target_nodes="T", exclude_nodes="X", root_nodes="R", cache_deps_of="D", cache_in="IN", from_cache="FROM")]
+        C.check(z3.BoolVal(ok), f"{self.qualname}.post.C12.selection_and_cache_arguments_reach_the_execution_unchanged", {"C12", "C18"}, "post")
+        return "return"
